@@ -4,6 +4,7 @@ import Restful.Go.Regex
 import Restful.Model.Route
 import Restful.Spec.Admits
 import Restful.Spec.Params
+import Restful.Spec.Classify
 namespace Restful.Driver
 open SExp
 
@@ -87,6 +88,9 @@ def routeAnswer (id : String) (cfg : Config) (req : Req) (real : Real) : String 
   let (o, tag) := routeTagged implEnv cfg req
   let specs := specLine "WF" cfg.wfTemplates ++ specLine "C01" (Spec.c01Holds implEnv cfg req real.outcome)
     ++ specLine "C04" (Spec.c04Holds implEnv cfg req real.outcome)
+    ++ specLine "C02" (Spec.c02Holds implEnv cfg req real.outcome real.invocations)
+    ++ specLine "noRootRegex" (Spec.noRootRegex cfg) ++ specLine "bodyCoherent" (Spec.bodyCoherent req)
+    ++ specLine "mediaHygiene" (Spec.mediaHygiene cfg)
   s!"(out {id} {encOutcome o} (tag {tag}){specs})"
 
 end Restful.Driver
